@@ -62,6 +62,15 @@ type c13Session struct {
 }
 
 func c13(r *vlib.Run) int {
+	min := c13Body(r)
+	if r.Tier == "thorough" || os.Getenv("VERIF_FORCE_RACE") != "" {
+		// secondary monitor: the same workload (reduced) against -race builds
+		r.RacePass([]string{"handlers.(*readCommand).read"}, func() { c13Body(r) })
+	}
+	return min
+}
+
+func c13Body(r *vlib.Run) int {
 	r.Rule("histories against a server with cat limit L in {1,2,3} and tail limit in {1,2}: {open a cat/grep session on its own 8 MB file " +
 		"whose output is not read (holds its slot under back-pressure), open a follow session, drain a session to completion, cancel a " +
 		"session by closing the connection while it runs or while it waits, burst of k opens}, two users. Hook-free observation: the set " +
